@@ -45,6 +45,65 @@ theorem sem_forIn_step {σ tok α : Type} (F : α → GS σ tok → GS σ tok) (
       = (.ok PUnit.unit, l.foldl (fun s c => F c s) g) :=
   sem_forIn_yield _ F (fun _ _ _ => rfl) l g
 
+/-! ### evaluation of `>>=` chains by `simp` (used by the rolling-counter ties) -/
+
+/-- what `>>=` does with the outcome of its first operand -/
+def sem_step {σ tok α β : Type} (r : Out α × GS σ tok) (f : α → M σ tok β) : Out β × GS σ tok :=
+  match r with
+  | (.ok a, s') => f a s'
+  | (.panic v, s') => (.panic v, s')
+  | (.nilCall, s') => (.nilCall, s')
+
+theorem sem_bind_step {σ tok α β : Type} (m : M σ tok α) (f : α → M σ tok β) (g : GS σ tok) :
+    (m >>= f) g = sem_step (m g) f := rfl
+
+@[simp] theorem sem_step_ok {σ tok α β : Type} (a : α) (s : GS σ tok) (f : α → M σ tok β) :
+    sem_step (.ok a, s) f = f a s := rfl
+
+theorem sem_ite_apply {σ tok α : Type} (c : Prop) [Decidable c] (m₁ m₂ : M σ tok α) (g : GS σ tok) :
+    (if c then m₁ else m₂) g = if c then m₁ g else m₂ g := by
+  split <;> rfl
+
+/-- a function body that only changes the package state -/
+theorem sem_goFunc_st {σ tok α : Type} (runTok : tok → M σ tok Unit) (body : M σ tok α) (g : GS σ tok)
+    (r : Out α) (s : σ) (h : body g = (r, { g with st := s })) : goFunc runTok body g = (r, { g with st := s }) := by
+  rw [sem_goFunc_noDefer _ _ _ (by rw [h]), h]
+
+/-- a loop that only threads its own accumulator: the package state is read, not written, and the body always yields -/
+theorem sem_forIn_acc {σ tok α β : Type} (f : α → β → M σ tok (ForInStep β)) (F : α → β → β) (g : GS σ tok)
+    (h : ∀ c b, f c b g = (.ok (.yield (F c b)), g)) (l : List α) (b : β) :
+    forIn l b f g = (.ok (l.foldl (fun b c => F c b) b), g) := by
+  induction l generalizing b with
+  | nil => rfl
+  | cons c l ih =>
+    rw [List.forIn_cons, sem_bind_step, h, sem_step_ok]
+    exact ih _
+
+/-! ### added for the manager tie -/
+/-! ### used by the manager tie (T_GoManager.lean) -/
+theorem sem_goFunc_def {σ tok α : Type} (runTok : tok → M σ tok Unit) (body : M σ tok α) (g : GS σ tok) :
+    goFunc runTok body g = ((body g).1, unwind runTok g.defers.length (body g).2.defers.length (body g).2) := rfl
+theorem sem_unwind_one {σ tok : Type} (runTok : tok → M σ tok Unit) (t : tok) (ht : runTok t = pure ()) (x : σ) (d : List tok) :
+    unwind runTok d.length (d.length + 1) { st := x, defers := t :: d } = { st := x, defers := d } := by
+  have h : ¬ (d.length + 1 ≤ d.length) := by omega
+  simp only [unwind, List.length_cons, h, if_false, ht, sem_pure]
+  exact sem_unwind_le _ _ _ _ (Nat.le_refl _)
+theorem sem_pushDefer {σ tok : Type} (t : tok) (g : GS σ tok) : (pushDefer t : M σ tok Unit) g = (.ok (), { g with defers := t :: g.defers }) := rfl
+theorem sem_bind_panic {σ tok α β : Type} (m : M σ tok α) (f : α → M σ tok β) (g g' : GS σ tok) (v : Nat) (h : m g = (.panic v, g')) :
+    (m >>= f) g = (.panic v, g') := by
+  show (match m g with | (.ok a, s') => f a s' | (.panic v, s') => (.panic v, s') | (.nilCall, s') => (.nilCall, s')) = _
+  rw [h]
+/-- a loop that only updates its mutable variable (the state is untouched) folds the update over the list -/
+theorem sem_forIn_accG {σ tok α β : Type} (f : α → β → M σ tok (ForInStep β)) (F : β → α → β)
+    (h : ∀ c a g, f c a g = (.ok (.yield (F a c)), g)) (l : List α) (a : β) (g : GS σ tok) :
+    forIn l a f g = (.ok (l.foldl F a), g) := by
+  induction l generalizing a with
+  | nil => rfl
+  | cons c l ih =>
+    rw [List.forIn_cons, sem_bind_ok _ _ _ _ _ (h c a g)]
+    exact ih _
+
+
 /-- telling every collector of a list one verdict appends one entry per collector, in order, and changes nothing else -/
 theorem sem_slo_told_foldl (b : Bool) (l : List GoSlo.Collector) (g : GS GoSlo.SloW NoTok) :
     l.foldl (fun (s : GS GoSlo.SloW NoTok) c =>
@@ -53,5 +112,19 @@ theorem sem_slo_told_foldl (b : Bool) (l : List GoSlo.Collector) (g : GS GoSlo.S
   induction l generalizing g with
   | nil => simp
   | cons c l ih => simp [ih]
+
+/-! ### added for the sorted-durations tie -/
+/-- `pure a >>= f` is `f a` (definitionally) -/
+theorem sem_pure_bind {σ tok α β : Type} (a : α) (f : α → M σ tok β) : ((pure a : M σ tok α) >>= f) = f a := rfl
+/-- a runtime panic in the first statement is the outcome of the block -/
+theorem sem_bind_nilCall {σ tok α β : Type} (m : M σ tok α) (f : α → M σ tok β) (g g' : GS σ tok) (h : m g = (.nilCall, g')) :
+    (m >>= f) g = (.nilCall, g') := by
+  show (match m g with | (.ok a, s') => f a s' | (.panic v, s') => (.panic v, s') | (.nilCall, s') => (.nilCall, s')) = _
+  rw [h]
+/-- a function body that returns in the state it was entered in (no `defer`, no state change): `goFunc` adds nothing -/
+theorem sem_goFunc_pure {σ tok α : Type} (runTok : tok → M σ tok Unit) (body : M σ tok α) (g : GS σ tok) (o : Out α)
+    (h : body g = (o, g)) : goFunc runTok body g = (o, g) := by
+  rw [sem_goFunc_noDefer _ _ _ (by rw [h]), h]
+
 
 end CM.GoTie
